@@ -15,7 +15,7 @@ type c10Case struct {
 
 var c10Lexemes = []string{"a", "<", ">", "&", `"`, "'", ";", "#", "&amp;", "&lt;", "&#34;", "&#39;", "&quot;", "é", "\n", `\`, " ", ",", "\x00"}
 
-var c10Contexts = []string{"print", "concat", "var", "array", "ternary", "raw", "raw-concat", "raw-var", "concat-var", "insert-arg", "component-arg", "component-arg-raw", "insert-block", "slot-body", "raw-then-print", "raw-twice", "print-raw-print", "array-last", "array-only", "array-nested-last", "loop-print", "loop-concat", "loop-raw", "loop-var-concat", "object-key", "object-key-lookup", "object-key-nested"}
+var c10Contexts = []string{"print", "concat", "var", "array", "ternary", "raw", "raw-concat", "raw-var", "concat-var", "insert-arg", "component-arg", "component-arg-raw", "insert-block", "slot-body", "raw-then-print", "raw-twice", "print-raw-print", "array-last", "array-only", "array-nested-last", "loop-print", "loop-concat", "loop-raw", "loop-var-concat", "object-key", "object-key-lookup", "object-key-nested", "raw-then-concat", "raw-reassign", "raw-chain", "insert-arg-concat", "insert-arg-raw", "insert-arg-ternary"}
 
 // c10Literal returns the literal's text and its source form; ok=false for contents that cannot
 // be written (a backslash before a quote or at the end).
@@ -117,6 +117,17 @@ func c10Check(cs c10Case) (ok bool, sig, expected, observed string) {
 	case "object-key-lookup": // the same literal as key and as index names the same property
 		src = "{{ {" + lit + `: "v"}[` + lit + "] }}"
 		want = "v"
+	case "raw-then-concat": // the result of raw() is a string like any other: it concatenates, compares, takes string functions
+		src = "{{ " + lit + `.raw() + "|" }}{{ ` + lit + ".raw() == " + lit + ".raw() }}"
+		want = text + "|1"
+		raw = true
+	case "raw-reassign":
+		src = "{{ t = " + lit + " }}{{ t = t.raw() }}{{ t }}"
+		raw = true
+	case "raw-chain":
+		src = "{{ " + lit + `.raw().trim("#") }}`
+		want = strings.Trim(text, "#")
+		raw = true
 	case "concat-var":
 		src = "{{ v = " + lit + ` }}{{ "<" + v + v }}`
 		want = "<" + text + text
@@ -130,6 +141,20 @@ func c10Check(cs c10Case) (ok bool, sig, expected, observed string) {
 			t.Files["lay.tw"] = `[@reserve("a")]`
 			t.Files["index.tw"] = `@use("lay")@insert("a", ` + lit + `)`
 			pre, post = "[", "]"
+		case "insert-arg-concat": // the argument is an expression built from the literal
+			t.Files["lay.tw"] = `[@reserve("a")]`
+			t.Files["index.tw"] = `@use("lay")@insert("a", ` + lit + ` + "<b>&")`
+			pre, post = "[", "]"
+			want = text + "<b>&"
+		case "insert-arg-ternary":
+			t.Files["lay.tw"] = `[@reserve("a")]`
+			t.Files["index.tw"] = `@use("lay")@insert("a", true ? ` + lit + ` : "n")`
+			pre, post = "[", "]"
+		case "insert-arg-raw":
+			t.Files["lay.tw"] = `[@reserve("a")]`
+			t.Files["index.tw"] = `@use("lay")@insert("a", ` + lit + `.raw())`
+			pre, post = "[", "]"
+			raw = true
 		case "insert-block":
 			t.Files["lay.tw"] = `[@reserve("a")]`
 			t.Files["index.tw"] = `@use("lay")@insert("a"){{ ` + lit + ` }}@end`
@@ -226,7 +251,7 @@ func c10Run(c *Ctx) {
 					continue
 				}
 				for ci, name := range c10Contexts {
-					isTree := name == "insert-arg" || name == "component-arg" || name == "component-arg-raw" || name == "insert-block" || name == "slot-body"
+					isTree := name == "insert-arg" || name == "component-arg" || name == "component-arg-raw" || name == "insert-block" || name == "slot-body" || strings.HasPrefix(name, "insert-arg-")
 					if isTree && k > treeLen {
 						continue
 					}
@@ -256,7 +281,7 @@ func init() {
 	p := &Property{
 		ID:    "C10",
 		Level: "exploration",
-		Rule: "bounded-exhaustive: every literal content of <=k lexemes over {a < > & \" ' ; # &amp; &lt; &#34; &#39; &quot; é newline backslash} x both quote styles (own quote backslash-escaped) x 27 usage contexts (as built: also evaluated in every pass of a loop, after raw() of the same value, as last / only / nested array element) (printed, concatenated, variable, array element, ternary arm, raw() of each, insert expression and block, component argument (also raw inside the component), slot body). " +
+		Rule: "bounded-exhaustive: every literal content of <=k lexemes over {a < > & \" ' ; # &amp; &lt; &#34; &#39; &quot; é newline backslash} x both quote styles (own quote backslash-escaped) x 33 usage contexts (as built: also evaluated in every pass of a loop, after raw() of the same value, as last / only / nested array element) (printed, concatenated, variable, array element, ternary arm, raw() of each, insert expression and block, component argument (also raw inside the component), slot body). " +
 			"Oracle: no raw < or >, every & starts an entity, quotes as written, html.UnescapeString(output) == literal; raw(): output == literal. Non-trivial: the literal contains one of < > & \" '",
 		Bounds: func(tier string) map[string]any {
 			if tier == "thorough" {
